@@ -145,11 +145,17 @@ PROFILES = {
         c(Ops=CORE1, MaxSeq=5),
         [sim(50, 22, MaxSeq=14, MaxTables=5, MaxHist=20, Ops=CORE1 | {"ingest"}, WriteBias=3),
          edges(20, 2000, Ops=CORE1, MaxSeq=5, MinLen=8),
-         drv(24, 160, dict(DRIVE_W, ingest=0.5))],
+         drv(24, 160, dict(DRIVE_W, ingest=0.5)),
+         # many L0 runs with nested key ranges under the real Leveled strategy (tiny targets:
+         # one table per key, every level over its size, so each choice moves or merges down)
+         drv(16, 160, dict(write=10, flush=5, leveled=3, reopen=0.2),
+             leveled_params=[(2, 1), (3, 1), (4, 1), (2, 150), (3, 150)])],
         c(Ops=CORE1, MaxSeq=6),
         [sim(150, 30, Keys={1, 2, 3}, MaxSeq=24, MaxTables=6, MaxHist=30, Ops=CORE_OPS | {"ingest"}, WriteBias=4),
          edges(6, 80000, timeout=2400, Ops=CORE1, MaxSeq=6, MinLen=9),
-         drv(120, 300, dict(DRIVE_W, ingest=0.5))]),
+         drv(120, 300, dict(DRIVE_W, ingest=0.5)),
+         drv(80, 300, dict(write=10, flush=5, leveled=3, reopen=0.2),
+             leveled_params=[(2, 1), (3, 1), (4, 1), (2, 150), (3, 150)])]),
     # C08 key-value separation is invisible
     "C08": tree_profile(
         6, ["READ", "SCAN", "SCANX", "SNAPRES", "DANGLE", "PTR", "INVENT", "LOST", "OPFAIL"],
